@@ -24,8 +24,12 @@ let eval (input : Sx.t) (obs : Sx.t) : Sx.t list * bool * bool * string =
     t "paramint" [sx_z (parse_int p)];
     t "paramint64" [sx_z (parse_int p)];
     t "noparam" [sx_str []; sx_z (parse_int [])];
-    t "nocookie" [sx_str []];
-    t "cookie" [sx_str (cookie_roundtrip c)] ] in
+    t "nocookie" [sx_str []] ]
+    @ (match Sx.field_opt "q2" input with
+       | Some x -> let q2 = str (List.hd (Sx.args x)) in   (* the query rewritten while the request is served *)
+           [t "requery" [sx_str (query q2 dstr); sx_str (query_trim q2 dstr); sx_z (query_int q2 dint); sx_bool (query_bool q2 dbool)]]
+       | None -> [])
+    @ [ t "cookie" [sx_str (cookie_roundtrip c)] ] in
   (* the property on the implementation's own answers: no panic; the cookie comes back byte for byte;
      an absent value yields the caller's default unchanged, or the zero value *)
   let spec = (match Sx.args obs with
@@ -38,7 +42,7 @@ let eval (input : Sx.t) (obs : Sx.t) : Sx.t list * bool * bool * string =
         (* ... and a present value is returned converted by the base-10 / boolean rule, zero on
            malformed text: Escape.parse_int / query_int / query_bool are that rule (theorems C18_default_rule_present and _absent) *)
         && List.for_all (fun m -> let tag = Sx.tag m in
-             not (List.mem tag ["query"; "trim"; "unescape"; "bool"; "int"; "int64"; "param"; "paramint"; "paramint64"; "noparam"; "nocookie"])
+             not (List.mem tag ["query"; "trim"; "unescape"; "bool"; "int"; "int64"; "param"; "paramint"; "paramint64"; "noparam"; "nocookie"; "requery"])
              || List.assoc tag (List.map (fun x -> (Sx.tag x, Sx.args x)) l) = Sx.args m) model
       with Not_found -> false)) in
   let odd = List.exists (fun ch -> let x = int_of_n ch in x < 32 || x > 126 || x = 59 || x = 44 || x = 34 || x = 92 || x = 32 || x = 37 || x = 43) c in
